@@ -157,45 +157,104 @@ def _fresh_chain(fn, z, phi_name):
     return False
 
 
+def _root_kind(fn, v, seen=frozenset()):
+    """where a pointer value comes from: ('param', k) | ('fresh',) | ('local',) | ('global', name) | ('other',)"""
+    for _ in range(32):
+        if v.kind == 'global':
+            return ('global', v.name)
+        if v.kind == 'cexpr':
+            b = v.strip_casts()
+            return ('global', b.name) if b.kind == 'global' else ('other',)
+        if v.kind != 'reg':
+            return ('other',)
+        d = fn.defs.get(v.name)
+        if d is None:
+            names = [p.name for p in fn.params]
+            return ('param', names.index(v.name)) if v.name in names else ('other',)
+        if d.op in ('getelementptr', 'bitcast'):
+            v = d.ops[0]
+            continue
+        if d.op == 'call':
+            return ('fresh',) if (d.callee_name() or '') in FRESH_CALLS else ('other',)
+        if d.op == 'alloca':
+            return ('local',)
+        if d.op == 'phi':
+            if v.name in seen:
+                return None           # a cycle back into a merge we are already resolving
+            kinds = set()
+            for x in d.ops:
+                if x.kind == 'null':
+                    continue
+                k = _root_kind(fn, x, seen | {v.name})
+                if k is not None:
+                    kinds.add(k)
+            if len(kinds) == 1:
+                return kinds.pop()
+            return ('other',) if kinds else None
+        return ('other',)
+    return ('other',)
+
+
 def mod_sets(mods):
-    """{function name: set of keys | None(=anything)} transitively"""
+    """{function name: set of keys | None(=anything)} transitively.
+
+    Stores into memory a function allocated itself never count.  Stores through a pointer parameter are
+    attributed at each call site: if the caller passes (a pointer into) memory it allocated itself, they do
+    not count for the caller either - a helper filling the caller's fresh array modifies nothing that
+    existed before the caller ran."""
     funcs = {}
     for m in mods:
         funcs.update(m.funcs)
-    direct = {}
-    calls = {}
+    direct = {}      # name -> set of (key, rootkind) ; None if wild
+    calls = {}       # name -> list of call instructions
     for n, fn in funcs.items():
         s = set()
-        cs = set()
+        cs = []
         wild = False
         for ins in fn.instrs():
             if ins.op == 'store':
                 k = store_key(fn, ins)
-                if not k.startswith('local:') and not store_root_is_fresh(fn, ins):
-                    s.add(k)
+                if k.startswith('local:'):
+                    continue
+                rk = _root_kind(fn, ins.ops[1]) or ('other',)
+                if rk[0] in ('fresh', 'local'):
+                    continue
+                s.add((k, rk))
             elif ins.op == 'call' and not ins.is_dbg():
                 cn = ins.callee_name()
                 if cn is None:
                     wild = True
                 else:
-                    cs.add(cn)
+                    cs.append(ins)
         direct[n] = None if wild else s
         calls[n] = cs
-    res = dict(direct)
+    res = {n: (None if v is None else set(v)) for n, v in direct.items()}
     changed = True
     while changed:
         changed = False
-        for n in funcs:
+        for n, fn in funcs.items():
             if res[n] is None:
                 continue
             acc = set(res[n])
-            for c in calls[n]:
-                if c in funcs:
-                    if res[c] is None:
+            for call in calls[n]:
+                c_ = call.callee_name()
+                if c_ in funcs:
+                    if res[c_] is None:
                         acc = None
                         break
-                    acc |= res[c]
-                elif c in EXTERNAL_NOMOD or c.startswith('llvm.'):
+                    for key, rk in res[c_]:
+                        if rk[0] == 'param':
+                            k = rk[1]
+                            if k < len(call.args):
+                                ak = _root_kind(fn, call.args[k]) or ('other',)
+                                if ak[0] in ('fresh', 'local'):
+                                    continue
+                                acc.add((key, ak if ak[0] in ('param', 'global') else ('other',)))
+                            else:
+                                acc.add((key, ('other',)))
+                        else:
+                            acc.add((key, rk))
+                elif c_ in EXTERNAL_NOMOD or c_.startswith('llvm.'):
                     continue
                 else:
                     acc = None
@@ -203,9 +262,12 @@ def mod_sets(mods):
             if acc != res[n]:
                 res[n] = acc
                 changed = True
-    for c in EXTERNAL_NOMOD:
-        res.setdefault(c, set())
-    return res
+    out = {}
+    for n, v in res.items():
+        out[n] = None if v is None else set(k for k, _ in v)
+    for c_ in EXTERNAL_NOMOD:
+        out.setdefault(c_, set())
+    return out
 
 
 def fresh_returning(mods, base=('malloc', 'calloc', 'realloc', 'reallocarray', 'strdup', 'strndup', 'fopen', 'fmemopen')):
